@@ -140,7 +140,7 @@ def check_state_machine(ctx):
     import vlib
     c13 = _lib()
     rng = random.Random(ctx.seed * 13 + 1)
-    nl, ln = ctx.n(10, 120), ctx.n(26, 60)
+    nl, ln = ctx.n(10, 60), ctx.n(26, 50)
     res = {'name': 'record-state-machine-vs-implementation', 'n': 0, 'nontrivial': 0, 'samples': [],
            'disagreements': [], 'histogram': {'lenses': 0, 'calls': 0, 'opcodes': {}}}
     specs = _specs(ctx, rng, nl, ['plain', 'vignetting', 'coated', 'newton', 'polarized', 'plain'])
@@ -356,7 +356,7 @@ def check_interleavings(ctx, seed_mul=13, offset=4, nl=None, heavy=True):
     one lens object; results bit for bit, caller arrays, lens snapshot, to_dict()"""
     c13 = _lib()
     rng = random.Random(ctx.seed * seed_mul + offset)
-    nl = nl or ctx.n(8, 150)
+    nl = nl or ctx.n(8, 50)
     res = {'name': 'interleaving-differential-test (translation validation)', 'n': 0, 'nontrivial': 0,
            'samples': [], 'disagreements': [],
            'histogram': {'lenses': 0, 'variants': {}, 'raised': 0, 'calls_per_lens': 0}}
@@ -388,7 +388,7 @@ def check_batch_independence(ctx, offset=5, nl=None):
     """one ray alone / in random subsets / in reversed order vs in the full batch"""
     c13 = _lib()
     rng = random.Random(ctx.seed * 13 + offset)
-    nl = nl or ctx.n(18, 300)
+    nl = nl or ctx.n(18, 200)
     res = {'name': 'ray-independent-of-companions', 'n': 0, 'nontrivial': 0, 'samples': [], 'disagreements': [],
            'histogram': {'closed_form_lenses': 0, 'newton_lenses': 0, 'worst_deviation_newton': 0.0, 'raised': 0}}
     specs = _specs(ctx, rng, nl, ['plain', 'newton', 'any', 'coated', 'newton', 'polarized'])
@@ -433,9 +433,9 @@ def system_checks(ctx):
 def search(ctx, broken, disagreements):
     """repeatability / caller arrays / lens state / companion independence oracle, wider seeded sweep"""
     out = []
-    r = check_interleavings(ctx, seed_mul=17, offset=9, nl=ctx.n(14, 200))
+    r = check_interleavings(ctx, seed_mul=17, offset=9, nl=ctx.n(14, 80))
     out += [d for d in r['disagreements'] if d.get('violates_property')]
-    r = check_batch_independence(ctx, offset=11, nl=ctx.n(40, 400))
+    r = check_batch_independence(ctx, offset=11, nl=ctx.n(40, 300))
     out += [d for d in r['disagreements'] if d.get('violates_property')]
     return out or None
 
